@@ -803,7 +803,11 @@ func (s *scanner) ReadStreamData(dict Dict) (stm *Stream, err error) {
 	lengthObj, hasLength := dict["Length"]
 	declared := int64(-1)
 	if hasLength {
-		if n, err := s.getInt(lengthObj); err == nil && n >= 0 {
+		n, err := s.getInt(lengthObj)
+		if IsReadError(err) {
+			return nil, err
+		}
+		if err == nil && n >= 0 {
 			declared = int64(n)
 		}
 	}
@@ -843,8 +847,16 @@ func (s *scanner) ReadStreamData(dict Dict) (stm *Stream, err error) {
 		crypt = &filterCrypt{enc: s.enc, ref: s.encRef}
 	}
 
+	lengthOK := false
+	if declared >= 0 {
+		lengthOK, err = endstreamAt(origReader, start+declared)
+		if err != nil {
+			return nil, err
+		}
+	}
+
 	var l int64
-	if declared >= 0 && endstreamAt(origReader, start+declared) {
+	if lengthOK {
 		l = declared
 		err = s.Discard(l)
 		if err != nil {
@@ -867,8 +879,10 @@ func (s *scanner) ReadStreamData(dict Dict) (stm *Stream, err error) {
 		if err != nil {
 			return nil, err
 		}
-		l = eolPos - start
-		l = trimTrailingEOL(origReader, start, l)
+		l, err = trimTrailingEOL(origReader, start, eolPos-start)
+		if err != nil {
+			return nil, err
+		}
 	}
 
 	// /Length describes one serialisation of the stream rather than the
@@ -890,10 +904,10 @@ func (s *scanner) ReadStreamData(dict Dict) (stm *Stream, err error) {
 // trimTrailingEOL returns length with any single trailing \n, \r, or
 // \r\n removed.  The bytes before "endstream" are an EOL per spec
 // (PDF 7.3.8.2) and must not be considered part of the stream
-// content.
-func trimTrailingEOL(r io.ReaderAt, start, length int64) int64 {
+// content.  A read error other than io.EOF is returned.
+func trimTrailingEOL(r io.ReaderAt, start, length int64) (int64, error) {
 	if length <= 0 {
-		return length
+		return length, nil
 	}
 	var probe [2]byte
 	readAt := start + length - int64(len(probe))
@@ -902,9 +916,12 @@ func trimTrailingEOL(r io.ReaderAt, start, length int64) int64 {
 		readAt = start
 		readLen = int(length)
 	}
-	n, _ := r.ReadAt(probe[:readLen], readAt)
+	n, err := r.ReadAt(probe[:readLen], readAt)
+	if err != nil && err != io.EOF {
+		return 0, err
+	}
 	if n == 0 {
-		return length
+		return length, nil
 	}
 	switch probe[n-1] {
 	case '\n':
@@ -915,18 +932,22 @@ func trimTrailingEOL(r io.ReaderAt, start, length int64) int64 {
 	case '\r':
 		length--
 	}
-	return length
+	return length, nil
 }
 
 // endstreamAt reports whether the bytes at absolute offset pos, after any run
 // of PDF whitespace, begin with the "endstream" keyword.  ReadStreamData uses
 // it to confirm a declared /Length before trusting it; a length that fails
 // this check is treated as broken and the stream extent is recovered by
-// scanning for endstream instead.
-func endstreamAt(r io.ReaderAt, pos int64) bool {
+// scanning for endstream instead.  A read error other than io.EOF is
+// returned instead of being mistaken for a broken length.
+func endstreamAt(r io.ReaderAt, pos int64) (bool, error) {
 	var buf [64]byte
 	for {
-		n, _ := r.ReadAt(buf[:], pos)
+		n, err := r.ReadAt(buf[:], pos)
+		if err != nil && err != io.EOF {
+			return false, err
+		}
 		i := 0
 		for i < n && class[buf[i]] == space {
 			i++
@@ -936,13 +957,16 @@ func endstreamAt(r io.ReaderAt, pos int64) bool {
 			break
 		}
 		if n < len(buf) {
-			return false // reached EOF inside the whitespace run
+			return false, nil // reached EOF inside the whitespace run
 		}
 		pos += int64(n)
 	}
 	var kw [9]byte // len("endstream")
-	n, _ := r.ReadAt(kw[:], pos)
-	return n == len(kw) && string(kw[:]) == "endstream"
+	n, err := r.ReadAt(kw[:], pos)
+	if err != nil && err != io.EOF {
+		return false, err
+	}
+	return n == len(kw) && string(kw[:]) == "endstream", nil
 }
 
 func (s *scanner) ReadHeaderVersion() (Version, error) {
